@@ -133,7 +133,7 @@ func c17Accepts(ae string) bool {
 
 func TestVerifC17Inputs(t *testing.T) {
 	L := ev.Begin("C17", "c17-inputs", "exploration",
-		"inner handler matrix body {empty, 1B, 512B text, 100kB text, already-gzipped} x every chunking class into <=3 writes x explicit/implicit WriteHeader x status {200,201,404,500 (+204,304 bodiless)} x Content-Type {matching, matching+charset, non-matching, absent(sniffed)} x Content-Encoding {none,gzip,br,zstd,aes128gcm} x Content-Length {absent,correct} x request Accept-Encoding {none,gzip,'gzip, deflate',br,identity,'gzip;q=0' and upper-case spellings of it} x an interim 103 before the final status x a second WriteHeader with changed content headers after the first chunk x Accept {*/*, text/event-stream}, served through a real http.Server; oracle: compressed only if the three conditions hold, then labelled, no stale Content-Length, gunzip == inner bytes; otherwise body and headers byte-identical; status always preserved. non-trivial = response with a body")
+		"inner handler matrix body {empty, 1B, 512B text, 100kB text, already-gzipped} x every chunking class into <=3 writes x explicit/implicit WriteHeader x status {200,201,404,500 (+204,304 bodiless)} x Content-Type {matching, matching+charset, non-matching, absent(sniffed)} x Content-Encoding {none,gzip,br,zstd,aes128gcm} x Content-Length {absent,correct} x request Accept-Encoding {none,gzip,'gzip, deflate',br,identity,'gzip;q=0' and upper-case spellings of it} x an interim 103 before the final status x a second WriteHeader with changed content headers after the first chunk; plus 4 operator expressions (strict about parameters / letter case) x 8 Content-Type spellings x headers flushed before the first write x Accept {*/*, text/event-stream}, served through a real http.Server; oracle: compressed only if the three conditions hold, then labelled, no stale Content-Length, gunzip == inner bytes; otherwise body and headers byte-identical; status always preserved. non-trivial = response with a body")
 	bodies := [][]byte{nil, []byte("x"), c17Text(512), c17Text(100 * 1024), c17Gz(c17Text(2000))}
 	ctypes := []string{"text/plain", "text/html; charset=utf-8", "application/json", "image/png", ""}
 	cencs := []string{"", "gzip", "br", "zstd", "aes128gcm"}
@@ -321,6 +321,59 @@ func TestVerifC17Inputs(t *testing.T) {
 	}
 	close(next)
 	wg.Wait()
+	// operator expressions that are strict about parameters and letter case: the decision is taken on
+	// the Content-Type header as the upstream wrote it, and only on it
+	for _, expr := range []string{`^text/html$`, `^application/json$`, `^text/(plain|html)(; ?charset=utf-8)?$`, `^(text/.*|application/json)(;.*)?$`} {
+		re := regexp.MustCompile(expr)
+		for _, ct := range []string{"text/html", "text/html; charset=iso-8859-1", "text/html; charset=utf-8", "text/html;charset=utf-8", "Application/JSON", "application/json", "TEXT/HTML", "application/json; charset=utf-8"} {
+			for _, flushFirst := range []bool{false, true} {
+				body := c17Text(5000)
+				inner := http.HandlerFunc(func(w http.ResponseWriter, r *http.Request) {
+					w.Header().Set("Content-Type", ct)
+					if flushFirst {
+						// streaming idiom: push the headers out before the first byte of the body
+						if f, ok := w.(http.Flusher); ok {
+							f.Flush()
+						}
+					}
+					w.Write(body)
+				})
+				srv := httptest.NewServer(NewGzipHandler(inner, re))
+				req, _ := http.NewRequest("GET", srv.URL, nil)
+				req.Header.Set("Accept-Encoding", "gzip")
+				resp, err := (&http.Client{Transport: &http.Transport{DisableCompression: true}}).Do(req)
+				if err != nil {
+					panic("VERIF-INFRA: " + err.Error())
+				}
+				raw, rerr := io.ReadAll(resp.Body)
+				resp.Body.Close()
+				srv.Close()
+				L.Case()
+				L.NontrivialKey(fmt.Sprint("strict", expr, ct, flushFirst))
+				d := map[string]interface{}{"expression": expr, "content_type": ct, "flush_before_first_write": flushFirst, "content_encoding": resp.Header.Get("Content-Encoding"), "read_error": fmt.Sprint(rerr)}
+				labelled := resp.Header.Get("Content-Encoding") == "gzip"
+				plainBody := raw
+				if labelled {
+					zr, zerr := stdgzip.NewReader(bytes.NewReader(raw))
+					if zerr == nil {
+						plainBody, zerr = io.ReadAll(zr)
+					}
+					if zerr != nil {
+						d["gunzip_error"] = zerr.Error()
+						L.Violation("compressed-body-does-not-decompress", d)
+						continue
+					}
+				}
+				switch {
+				case rerr != nil || !bytes.Equal(plainBody, body):
+					d["got_len"] = len(plainBody)
+					L.Violation("body-changed-or-compressed-without-label", d)
+				case labelled && !re.MatchString(ct):
+					L.Violation("compressed-although-content-type-is-outside-the-configured-expression", d)
+				}
+			}
+		}
+	}
 	L.End(true)
 }
 
